@@ -622,6 +622,64 @@ def _attach_predicate(repo: Repo, mm, rc: ast.FunctionDef):
                 return "?", f"run boundary {norm(bound)}"
             if att[2] is None and det[1] is None:
                 return "bad", "the leading controllers are detached and the trailing ones attached"
+            if att[1] is None and att[2] is not None and det[1] is not None and det[2] is not None and norm(att[2]) == norm(det[1]):
+                # L[:a] attached, L[a:u] detached, a and u piecewise-affine in the count n (max / min / + / −): every position is decided
+                # when a ≥ 0, a = n on 0..MAX, and u ≥ len(L) for every n.  The breakpoints lie at 0 and MAX (arguments of max/min are
+                # n + c or c − n with |c| ≤ MAX), so integers −4·MAX … 5·MAX and the end slopes cover all n.
+                try:
+                    MAXI = int(repo.fold(ast.Name(id="MAX_USER_DEFINED_CONTROLLERS", ctx=ast.Load()), ci=mm))
+                except Exception:
+                    return "?", "MAX_USER_DEFINED_CONTROLLERS not constant"
+
+                class _NE(Exception):
+                    pass
+
+                def evi(e, n, depth=0):
+                    if depth > 8:
+                        raise _NE()
+                    if isinstance(e, ast.Constant) and isinstance(e.value, int) and not isinstance(e.value, bool):
+                        return e.value
+                    if norm(e) == "self.user_defined_controllers":
+                        return n
+                    if isinstance(e, ast.Call) and norm(e.func) == "len" and len(e.args) == 1 and norm(resolve_names(e.args[0], defs)) == "self.user_defined":
+                        return MAXI
+                    if isinstance(e, ast.Name) and e.id in defs:
+                        return evi(defs[e.id], n, depth + 1)
+                    if isinstance(e, (ast.Name, ast.Attribute)):
+                        try:
+                            c = repo.fold(e, ci=mm)
+                        except Exception:
+                            raise _NE()
+                        if isinstance(c, int) and not isinstance(c, bool):
+                            return c
+                        raise _NE()
+                    if isinstance(e, ast.BinOp) and isinstance(e.op, (ast.Add, ast.Sub)):
+                        a_, b_ = evi(e.left, n, depth + 1), evi(e.right, n, depth + 1)
+                        return a_ + b_ if isinstance(e.op, ast.Add) else a_ - b_
+                    if isinstance(e, ast.Call) and norm(e.func) in ("max", "min") and len(e.args) == 2 and not e.keywords:
+                        a_, b_ = evi(e.args[0], n, depth + 1), evi(e.args[1], n, depth + 1)
+                        return max(a_, b_) if norm(e.func) == "max" else min(a_, b_)
+                    raise _NE()
+                try:
+                    lo_n, hi_n = -4 * MAXI, 5 * MAXI
+                    for n_ in range(lo_n, hi_n + 1):
+                        a_ = evi(att[2], n_)
+                        u_ = evi(det[2], n_)
+                        if a_ < 0:
+                            return "?", f"run boundary {norm(att[2])} is negative for count {n_} (counts from the end)"
+                        if 0 <= n_ <= MAXI and a_ != n_:
+                            return "bad", f"with count {n_} the first {a_} controllers are attached"
+                        if n_ < 0 and a_ != 0 or n_ > MAXI and a_ < MAXI:
+                            return "bad", f"with count {n_} the first {a_} controllers are attached"
+                        if u_ < MAXI:
+                            return "bad", f"with count {n_} only the first {u_} positions are decided: controllers beyond them keep a stale attachment"
+                    # slopes beyond the sampled range keep the inequalities
+                    if evi(att[2], hi_n) - evi(att[2], hi_n - 1) < 0 or evi(det[2], hi_n) - evi(det[2], hi_n - 1) < 0 \
+                            or evi(att[2], lo_n) - evi(att[2], lo_n + 1) != 0 or evi(det[2], lo_n) - evi(det[2], lo_n + 1) < 0:
+                        return "?", "run boundaries not monotone outside the sampled counts"
+                    return "ok", ""
+                except _NE:
+                    return "?", f"run boundaries {norm(att[2])} / {norm(det[2])}"
         return "?", "2 loops"
     if len(loops) != 1:
         return "?", f"{len(loops)} loops"
